@@ -654,6 +654,10 @@ pub fn run(a: &Args, prop: &'static str) -> i32 {
     let nhist: usize = if quick { 8 } else { 120 };
     // per history: at most this many points judged (evenly strided); thorough judges all
     let max_points: u64 = if quick { 45 } else { 100_000 };
+    // thorough: no new history is started after this wall budget (skipped histories are counted, never judged)
+    let t_start = std::time::Instant::now();
+    let wall_budget = std::time::Duration::from_secs(if quick { 3600 } else { 780 });
+    let skipped = std::sync::atomic::AtomicUsize::new(0);
     let real_kills_per_hist: usize = if quick { 3 } else { 10 };
     let scratch = Scratch::new(&format!("{}-crash", prop.to_lowercase()));
     let threads = 14usize;
@@ -662,11 +666,15 @@ pub fn run(a: &Args, prop: &'static str) -> i32 {
     let next = std::sync::atomic::AtomicUsize::new(0);
     std::thread::scope(|sc| {
         for t in 0..threads {
-            let (all, next, scratch) = (&all, &next, &scratch);
+            let (all, next, scratch, skipped) = (&all, &next, &scratch, &skipped);
             sc.spawn(move || loop {
                 let hi = next.fetch_add(1, Ordering::SeqCst);
                 if hi >= nhist {
                     break;
+                }
+                if t_start.elapsed() > wall_budget {
+                    skipped.fetch_add(1, Ordering::SeqCst);
+                    continue;
                 }
                 let hseed = Rng::derive(seed, 700_000 + hi as u64 + if ddl_heavy { 40_000_000 } else { 0 }).next();
                 let hist = crash_history(hseed, ddl_heavy);
@@ -825,7 +833,9 @@ pub fn run(a: &Args, prop: &'static str) -> i32 {
         }
     }
     ctx.extra.insert("hook_points_enumerated".into(), json!(points_seen));
-    ctx.exhaustive = Some(!quick);
+    let nskipped = skipped.load(Ordering::SeqCst) as u64;
+    ctx.count("histories_skipped_wall_budget", nskipped);
+    ctx.exhaustive = Some(!quick && nskipped == 0);
     ctx.assumptions.push("crash instants are the hook points (plus real SIGKILLs at sampled hook points); the power-loss image keeps directory entries and WAL truncation as immediately durable and every file's content/length as of its last successful sync".into());
     ctx.assumptions.push("statements TurDB rejected are treated as having no effect (C06 judges that separately); a history whose model replay hits an unsupported statement is dropped".into());
     ctx.finish()
